@@ -50,11 +50,29 @@ class Model(LogicType.Model[Meta.values]):
         self._check_not_finished()
         self._complete_frames()
         for w, frame in self.frames.items():
+            self._ensure_self_identity(w)
+            self._close_identity(w)
             for pred in deque(frame.predicates):
                 self._agument_extension_with_identicals(pred, w)
-            self._ensure_self_identity(w)
             self._ensure_self_existence(w)
         return super().finish()
+
+    def _close_identity(self, w):
+        # make identity symmetric and transitive
+        interp = self.frames[w].predicates[Predicate.Identity]
+        while True:
+            pairs = set(interp.having('T'))
+            to_add = set()
+            for a, b in pairs:
+                if (b, a) not in pairs:
+                    to_add.add((b, a))
+                for c, d in pairs:
+                    if b == c and (a, d) not in pairs:
+                        to_add.add((a, d))
+            if not to_add:
+                break
+            for params in to_add:
+                interp[params] = 'T'
 
     def _ensure_self_identity(self, w):
         if not len(self.constants):
@@ -74,13 +92,20 @@ class Model(LogicType.Model[Meta.values]):
 
     def _agument_extension_with_identicals(self, pred: Predicate, w):
         interp = self.frames[w].predicates[pred]
-        for c in self.constants:
-            identicals = self._get_identicals(c, w)
+        # substitute identicals one position at a time, until nothing is added
+        while True:
+            current = set(interp.having('T'))
             to_add = set()
-            for params in interp.having('T'):
-                if c in params:
-                    for new_c in identicals:
-                        to_add.add(substitute(params, c, new_c))
+            for c in self.constants:
+                identicals = self._get_identicals(c, w)
+                for params in current:
+                    for i, param in enumerate(params):
+                        if param == c:
+                            for new_c in identicals:
+                                to_add.add((*params[:i], new_c, *params[i + 1:]))
+            to_add -= current
+            if not to_add:
+                break
             for params in to_add:
                 interp[params] = 'T'
 
